@@ -85,7 +85,7 @@ def _pure(ctx, res):
             flagged.append(i)
     res.distinct_nontrivial += len(nontriv)
     res.extra["pure_outcome_distribution"] = kinds
-    res.extra["exhaustive"] = ("every value of length <= %d over {\",',+,-,0,1,9,.,e,x,_}; inf/nan/infinity/true/false/null in "
+    res.extra["exhaustive_families"] = ("every value of length <= %d over {\",',+,-,0,1,9,.,e,x,_}; inf/nan/infinity/true/false/null in "
                                "every letter case with signs; every path of length <= %d over {/,a,%%2F,.}"
                                % ((5, 7) if tier == "thorough" else (4, 5)))
     res.samples += [l for l in lines if "\tfloat" in l][:1] + [l for l in lines if "\tbytes:" in l][:1] + \
